@@ -236,11 +236,12 @@ Record sfield := mkSF { sf_name : string; sf_type : nat; sf_tag : string }.
 
 Inductive cf_result := CfOk (f : sfield) | CfPrevented | CfNotField.
 
-(* lit is the source text of the basic literal naming the field *)
+(* lit is the source text of the basic literal naming the field; the comparison is exact since fix 'match
+   wire.Struct and wire.FieldsOf field names exactly' (it was strings.EqualFold before) *)
 Fixpoint check_field (lit : string) (fields : list sfield) : cf_result :=
   match fields with
   | [] => CfNotField
-  | f :: r => if eq_fold (quote (sf_name f)) lit
+  | f :: r => if String.eqb (quote (sf_name f)) lit
               then (if is_prevented (sf_tag f) then CfPrevented else CfOk f)
               else check_field lit r
   end.
